@@ -324,6 +324,12 @@ def run_shard(desc, ctx):
                 t = rng.choice(NOTEXT_TEXTS)
                 if t is not None:
                     cfg['text'] = t
+                if i % 15 == 0:
+                    # a variable that stands for nothing leaves the value empty as well
+                    a = rng.choice(['X{${vv}}', 'P>X{${vv}}', 'X[t="${vv}"]', 'X[t=${vv}]{${vv}}', 'P>X[t="${vv}" d1]+Y', 'X{${vv}${vv}}']).replace('X', x).replace('Y', y).replace('P', rng.choice(NOTEXT_PARENTS))
+                    a = a if x not in ('br', 'img', 'hr') else a.replace(x, 'p')
+                    cfg = dict(cfg, variables={'vv': ''})
+                    cfg.pop('text', None)
                 mon.check(a, cfg, 'id', {'numbering': True, 'snippet_names': False, 'explicit': False}, 'nothing-to-wrap')
             if i % 4 == 1:
                 a = grouped_case(rng)
